@@ -17,6 +17,8 @@ def run_worlds(chk, replay, machine, tracemod, replay_cmd, renderers, plans, sam
     def key_of(e, why):
         return "%s:%s:b%d:%d:%s" % (e["r"], "x".join(map(str, e["dims"])), e["base"], e["code"], why)
 
+    if replay and replay["replay"].get("kind") == "scene":
+        raise vlib.Inconclusive("scene observations are re-run by seed: VERIF_SEED=%s" % replay.get("seed"))
     if replay:
         vec = [replay["replay"]["vector"]]
         obs, bad = replay_and_judge(vec, (replay["replay"]["renderer"],))
@@ -84,3 +86,19 @@ def run_worlds(chk, replay, machine, tracemod, replay_cmd, renderers, plans, sam
                         rule="world = block of free corners (classes N,n,z,P; base 2 = {N,P}, 3 = {N,z,P}) inside a "
                              "positive ring; TLC enumerates world codes and checks the model; each exported world is "
                              "rendered by the real renderers and the real output is judged by the trace spec"))
+
+
+def run_scenes(chk, cmd):
+    """T part: real shapes at real coordinates / resolutions / alignments, judged by MeshStatTrace.tla"""
+    out = chk.vh([cmd], timeout=1800)
+    obs = [json.loads(x) for x in out.splitlines() if x.strip()]
+    bad = chk.validate("MeshStatTrace", obs, chunks=1, timeout=900)
+    chk.traces += len(obs)
+    for e, why in bad:
+        chk.violation("scene:%s:%s:%d:%s" % (e["shape"], e["r"], e["cells"], why),
+                      "real %s output of %s (%s) at %d cells rejected: %s (items=%d unmatched=%d degenerate=%d outside=%d)" % (
+                          e["r"], e["shape"], e["param"], e["cells"], why, e["nt"], e["unmatched"], e["degen"], e["outside"]),
+                      dict(kind="scene", obs=e))
+    chk.cov["real_scenes_judged"] = len(obs)
+    if obs:
+        chk.sample(dict(scene={k: obs[0][k] for k in ("shape", "r", "cells", "nt", "unmatched", "degen")}))
